@@ -35,7 +35,7 @@ def gen_case(rng):
     kind = rng.choice(["benign", "parent-dotdot", "parent-abs", "link-rel", "link-abs", "link-dir", "link-chain",
                        "input-outside", "root-sub", "root-dotdot", "parent-glob", "filename-chain-link", "benign-link-inside",
                        "link-dotdot-inside", "sibling-parent", "sibling-link", "sibling-link-dir", "sibling-link-abs",
-                       "glob-dir-link", "glob-dir-link", "glob-dir-inside", "parent-candidate-link", "link-abs-inside-chain", "link-abs-inside-dir"])
+                       "glob-dir-link", "glob-dir-link", "glob-dir-inside", "parent-candidate-link", "link-abs-inside-chain", "link-abs-inside-dir", "parent-glob-link-match"])
     sib = rng.choice(["root-secrets", "root.bak", "rootx"])
     if kind == "sibling-parent":
         layout["root/a.b.yaml"]["docs"] = [dict(over, **{"$parent": rng.choice([f"../{sib}/decoy", "{W}/" + sib + "/decoy"])})]
@@ -97,6 +97,14 @@ def gen_case(rng):
         inputs = [rng.choice(["l.yaml", "a.c.yaml"])]
         if inputs == ["a.c.yaml"]:
             layout["root/a.c.yaml"] = {"fmt": "yaml", "docs": [{"$parent": "l", "top": 2}]}
+    if kind == "parent-glob-link-match":
+        # `$parent: base` expands to base.*: one match is a regular file, another a link that leaves the root (to a decoy
+        # that may or may not exist).  Every match is loaded, so this fails - whatever is outside.
+        layout["root/base.yaml"] = {"fmt": "yaml", "docs": [{"from_base": 1}]}
+        layout["outside/base.json"] = {"fmt": "json", "docs": [DECOY_A]}
+        decoys = decoys + ["outside/base.json"]
+        layout["root/" + rng.choice(["base.json", "base.toml", "base.yml"])] = {"link": rng.choice(["../outside/base.json", "{W}/outside/base.json"])}
+        layout["root/a.b.yaml"]["docs"] = [dict(over, **{"$parent": rng.choice(["base", "bas*", ["base"], "./base"])})]
     if kind in ("glob-dir-link", "glob-dir-inside"):
         # a $parent pattern with a wildcard DIRECTORY: one of the directories it can match is a link that leaves the
         # root; whether a decoy exists behind it must not decide anything
